@@ -15,13 +15,15 @@ MaxLen == 20
 Report(kind, t, i, clauses) == PrintT("@@" \o ToJson([kind |-> kind, tid |-> t, l |-> i, clauses |-> clauses]))
 Norm(out) == IF out \in {"True", "False"} THEN out
              ELSE IF out \in {"Raise:SchemaError", "Raise:ValidationError"} THEN "Raise" ELSE out
-Truth(fresh) == IF fresh = "True" THEN "valid" ELSE "invalid"
+\* ground truth of the key, from the fresh-process outcome of the call with expect_failure = FALSE (c.fresh0)
+Truth(c) == IF "fresh0" \notin DOMAIN c THEN (IF c.fresh = "True" THEN "valid" ELSE "invalid")
+            ELSE IF c.fresh0 = "True" THEN "valid" ELSE IF c.fresh0 = "False" THEN "invalid" ELSE "broken"
 
 Init == tid \in DOMAIN Trace /\ l = 0 /\ sv = <<>> /\ va = <<>>
 Next == /\ l < Len(Trace[tid].calls)
         /\ l' = l + 1 /\ UNCHANGED tid
         /\ LET c == Trace[tid].calls[l + 1]
-               r == Validate(IF c.fn = "sv" THEN sv ELSE va, c.k, c.ef, Truth(c.fresh), MaxLen)
+               r == Validate(IF c.fn = "sv" THEN sv ELSE va, c.k, c.ef, Truth(c), MaxLen)
                sv2 == IF c.fn = "sv" THEN r[2] ELSE sv
                va2 == IF c.fn = "va" THEN r[2] ELSE va
                viol == IF c.out = c.fresh THEN {} ELSE {"outcome_depends_on_history"}
